@@ -893,13 +893,10 @@ class ExpectationPropagation:
         )
         self.mutation_edges[singletons] = switched_edges
         self.mutation_nodes[singletons] = self.edge_children[switched_edges]
-        switched = self.mutation_phase < 0.5
-        self.mutation_phase[switched] = 1 - self.mutation_phase[switched]
-        logger.info(f"Switched phase of {np.sum(switched)} singletons")
 
         if rescale_intervals > 0 and rescale_iterations > 0:
             rescale_timing = time.time()
-            self.rescale(
+            self.rescale(  # needs phase relative to the first edge of each block
                 rescale_intervals=rescale_intervals,
                 rescale_iterations=rescale_iterations,
                 rescale_segsites=rescale_segsites,
@@ -908,6 +905,11 @@ class ExpectationPropagation:
             )
             rescale_timing -= time.time()
             logger.info(f"Timescale rescaled in {abs(rescale_timing):.2f} seconds")
+
+        # report phase relative to the edge on which each singleton was placed
+        switched = self.mutation_phase < 0.5
+        self.mutation_phase[switched] = 1 - self.mutation_phase[switched]
+        logger.info(f"Switched phase of {np.sum(switched)} singletons")
 
     def node_moments(self):
         # Posterior mean and variance of node ages (equivalent to node_posteriors)
